@@ -133,6 +133,47 @@ def full_traversal_driver(ctx, cfg, a, body, owners, cl, owner_local, finisher_b
     return None
 
 
+def full_traversal_loop(ctx, cfg, a, body, owners, cl, owner_local, finisher_bb):
+    """Loop form of full_traversal_driver: a loop over an unadapted pipeline covering the owner's whole (claimed) storage, left only when
+    next() returns None, each step advancing a position of this owner exactly once, whose None exit dominates the finisher."""
+    from ..loops import find_loops, slices_of
+    adt = local_adt(a, owner_local)
+    o = owners.get(adt)
+    if o is None:
+        return None
+    for lp in find_loops(a):
+        if lp.breaks or not lp.none_targets or not all(a.dominates(t, finisher_bb) for t in lp.none_targets):
+            continue
+        if find_in(lp.pipe, lambda t: isinstance(t, tuple) and len(t) >= 3 and t[0] == "V" and t[1] == "iter" and t[2] in ("skip", "take", "step_by", "filter", "skip_while", "take_while", "chain", "peekable", "rev")):
+            continue
+        d = lp.nxt
+        st = State(d.mem, d.facts)
+        lt = a.local_ty(owner_local)
+        targs = [x for x in lt["args"] if x.get("k") != "region"]
+        N = a.tenv.length(targs[-1])
+        S = a.tenv.size(targs[0])
+        names = o["names"]
+        for sl in slices_of(lp.pipe):
+            p = sl[3]
+            if o["array_is_ref"]:
+                arr = a.read_cell(st, ("local", owner_local), (o["array"],), None)
+                base_ok = arr[0] == "P" and arr[1] == p[1]
+            else:
+                base_ok = p[1] == ("field", ("local", owner_local), (o["array"],))
+            if not base_ok or p[3] is None:
+                continue
+            if "index" in names:
+                continue  # the by-value iterator's own loops start from its current indices: judged by C03.I / C06
+            if not (peq(a, d.facts, p[2], Poly.const(0)) and peq(a, d.facts, p[3], N)):
+                continue
+            role, ok, det, info = check_closure_protocol(a, cl, lp)
+            if role not in ("consumer", "builder") or info["normal_problems"] or info["at_break"]:
+                continue
+            if any(pid[0] == ("local", owner_local) and pid[1] in o["pos"] for pid in info["positions"]):
+                return lp
+    return None
+
+
 def check_finishers(ctx, cfg):
     rule = "C03.F"
     db = ctx.db(cfg)
@@ -183,6 +224,10 @@ def check_finishers(ctx, cfg):
                     r = full_traversal_driver(ctx, cfg, a, b, owners, cl, loc, c.bb)
                     if r is not None:
                         evidence = "dominated by %s driving protocol closure %s over the owner's whole claimed storage" % (r[0].fn, r[1].split("::")[-1])
+                    else:
+                        lp = full_traversal_loop(ctx, cfg, a, b, owners, cl, loc, c.bb)
+                        if lp is not None:
+                            evidence = "dominated by the None exit of a loop over the owner's whole storage whose every step advances the owner's position exactly once (no break)"
             if evidence is None and loc is not None:
                 # extend(&mut owner, X.into_iter()) with len(X) == N proven
                 for e in a.calls:
